@@ -763,7 +763,7 @@ impl ParserListener for Screen {
             Some(margins) => margins.top,
             None => 0,
         };
-        let count = count.unwrap_or(1);
+        let count = count.map(|a| if a > 0 { a } else { 1 }).unwrap_or(1);
         self.cursor.y = self.cursor.y.saturating_sub(count).max(top);
     }
 
@@ -772,7 +772,7 @@ impl ParserListener for Screen {
             Some(margins) => margins.bottom,
             None => self.lines - 1,
         };
-        let count = count.unwrap_or(1);
+        let count = count.map(|a| if a > 0 { a } else { 1 }).unwrap_or(1);
         self.cursor.y = (self.cursor.y + count).min(bottom);
     }
 
@@ -787,7 +787,7 @@ impl ParserListener for Screen {
     /// # Parameters
     /// - `count`: Number of columns to skip.
     fn cursor_forward(&mut self, count: Option<u32>) {
-        self.cursor.x += count.unwrap_or(1);
+        self.cursor.x += count.map(|a| if a > 0 { a } else { 1 }).unwrap_or(1);
         self.ensure_hbounds();
     }
 
@@ -803,8 +803,9 @@ impl ParserListener for Screen {
         if self.cursor.x == self.columns {
             self.cursor.x -= 1
         }
-        if self.cursor.x >= count.unwrap_or(1) {
-            self.cursor.x -= count.unwrap_or(1);
+        let count = count.map(|a| if a > 0 { a } else { 1 }).unwrap_or(1);
+        if self.cursor.x >= count {
+            self.cursor.x -= count;
         } else {
             self.cursor.x = 0;
         }
@@ -817,7 +818,7 @@ impl ParserListener for Screen {
     }
 
     fn cursor_to_column(&mut self, character: Option<u32>) {
-        self.cursor.x = character.unwrap_or(1) - 1;
+        self.cursor.x = character.map(|a| if a > 0 { a } else { 1 }).unwrap_or(1) - 1;
         self.ensure_hbounds();
     }
 
@@ -1022,7 +1023,7 @@ impl ParserListener for Screen {
     /// # Parameters
     /// - `line`: Line number to move the cursor to.
     fn cursor_to_line(&mut self, line: Option<u32>) {
-        self.cursor.y = line.unwrap_or(1) - 1;
+        self.cursor.y = line.map(|a| if a > 0 { a } else { 1 }).unwrap_or(1) - 1;
 
         // If origin mode (DECOM) is set, line numbers are relative to
         // the top scrolling margin.
